@@ -204,6 +204,12 @@ fn all_inputs(dir: &Path) -> Vec<Input> {
             }
         }
     }
+    // misc info 5 with XSAVE features up to the last one enabled (the raw dump lists them)
+    if let Some((name, bytes)) = vh::seeds::synthetic_seeds().into_iter().find(|s| s.0 == "misc5-le") {
+        let p = out_dir.join("misc5.dmp");
+        std::fs::write(&p, &bytes).expect("write");
+        v.push(Input { name: format!("generated/{name}"), path: p, kind: InputKind::Dump });
+    }
     for (name, _b) in vh::seeds::corpus_seeds() {
         let n = name.trim_start_matches("corpus/").to_string();
         if n != "test.dmp" && n != "linux-mini.dmp" {
